@@ -26,9 +26,14 @@ def enum_words(tier, seed):
             # thorough: the quick pairs one level deeper, and every pair of generators at depth 4
             for s, t in XF.PAIRS_QUICK:
                 yield (dim, s, t, 5)
+            cplx = ("unitary", "cperm", "cshear")
             for s, t in [p for p in itertools.permutations(names, 2) if p[0] < p[1]] + [("det2@int", "shear@int"), ("detm3@int", "proj@int")]:
-                if (s, t) not in XF.PAIRS_QUICK:
-                    yield (dim, s, t, 4)
+                if (s, t) in XF.PAIRS_QUICK:
+                    continue
+                # complex generators (exact arithmetic over Q(i) is slow) are paired with two real ones each
+                if (s in cplx or t in cplx) and not ({s, t} & {"proj", "trans"}):
+                    continue
+                yield (dim, s, t, 4)
 
 
 @family("C06", "word_bfs", enum_words)
